@@ -4,6 +4,10 @@ import json, os, subprocess
 ROOT = os.path.dirname(os.path.dirname(os.path.abspath(__file__)))
 
 CHECKS = {
+    "C10": dict(level="model_checking", design="DESIGN.md section 5 C10",
+                technique="TLC model checking that repair-by-rotation equals precedence climbing (Expr.tla) + TLC validation of the real parser's trees and literal nodes",
+                text="D: for every operator chain (all 13 binary operators up to length 3/4, unary operators in front of every operand up to length 2) TLC checks that the transcription of the parser's rotate-to-repair algorithm yields the precedence-climbing tree and keeps the operands in order. V: the REAL parser's tree for every such chain, for parenthesised spans, for class-representative chains up to 5 operators and seeded random chains up to 8 operators is compared by TLC with Prec(tokens); literal nodes for 16-bit values in decimal/&H/&O with leading zeros and sign, sampled 32-bit values, values beyond LONG and fractional literals are checked for narrowest type and exact value.",
+                note="Trusted: harness tree export (shape.rs), TLC. Trees compared up to unary-minus placement over * / MOD. Lowercase &h prefix is not generated (the lexer only knows &H; case is C09's subject)."),
     "C20": dict(level="model_checking", design="DESIGN.md section 5 C20",
                 technique="denotational TLA+ model of the combinators (PC.tla); TLC validates the results of the real combinators built from the same terms",
                 text="The harness builds the REAL rusty_pc combinator for each abstract term (7 leaves that succeed / fail softly / fail fatally, consuming or not; 18 unary, 8 binary, 2 ternary combinators; a fixed closure table) and runs it on all 121 inputs over {a,b,c} up to length 4. TLC evaluates PC.tla - written from the documentation and the contract of C20 - on the same terms and inputs and compares result class, value, error code and position, and checks on the model that a soft failure under an undoing combinator keeps the position and that success never moves it backwards. Terms: depth 1 complete, depth 2 (unary over depth 1, binary over depth-1 x leaf) complete in thorough, seeded depth 3-5 samples.",
